@@ -63,7 +63,10 @@ CANDIDATES = ['Water', 'Ethanol', 'Methanol', 'Propanol', 'Butanol', 'Benzene', 
               'AceticAcid', 'FormicAcid', 'Ethylene', 'Propylene', 'Cyclohexane', 'Phenol', 'Furfural', 'EthylAcetate',
               'DiethylEther', 'Chloroform', 'Acetaldehyde', 'LacticAcid', 'Octanol', 'Decane', 'Dodecane', 'o-Xylene',
               'Styrene', 'Isopropanol', 'Isobutanol', 'SO2', 'H2S', 'Argon', 'CO', 'H2', 'HCl', 'Acetonitrile',
-              'Tetrahydrofuran', 'DMSO', 'EthyleneGlycol']
+              'Tetrahydrofuran', 'DMSO', 'EthyleneGlycol',
+              # complete Cn / Tm / Tb / Hvap data but NO heat of fusion in the database (Hfus = Sfus = 0.0): the falsy-zero corner
+              # of every `Hfus` test (setters, _init_data)
+              'HMF', 'Vanillin', 'TributylPhosphate']
 XPHASES = [('l', 'g'), ('s', 'l'), ('s', 'l', 'g'), ('l', 'L'), ('L', 'g', 's'), ('g', 's'), ('l', 'L', 'g'), ('S', 'l')]
 RESET_KINDS = ('Tb', 'Tm', 'phase_ref', 'reset', 'cmf', 'methodR')
 LOCK_ROUTES = ['ctor', 'inplace', 'copy', 'copy', 'copyof', 'copyof-inplace', 'relock']
@@ -1096,6 +1099,8 @@ def _run_ops(ops):
             sess = Session(get_chem(tuple(t[1:])), tuple(t[1:]))
             if any(tok.startswith('Tref=') for tok in t): tags.append('reference-conditions-varied')
             tags.append('chem:' + t[1] + ':' + (sess.c.locked_state and 'locked' or sess.c.phase_ref))
+            if sess.c.Hfus is not None and t[1] == 'set' and any(x.startswith('Hfus=') for x in t) \
+                    and get_chem(('db', t[2], get_chem_default_ref(t[2]))).Hfus == 0.0: tags.append('Hfus-setter-on-zero-Hfus-chemical')
             if t[1] == 'switch' or any(x.startswith('T0=') for x in t): tags.append('history:Cn(T0)-then-method-switch')
             if t[1] == 'cmf': tags.append('copy_models_from:' + t[5])
             if t[1] == 'copy': tags.append(f'copy-history:{t[4]}:{t[5]}')
@@ -1537,11 +1542,18 @@ def generate(rng, tier, index, nworkers):
         if ID not in UNIVERSE: continue
         for ph in 'slg':
             for route in sorted(set(LOCK_ROUTES)): grid.append(('lock', ID, ph, route))
+    for ID in UNIVERSE:
+        # chemicals without a database heat of fusion: the user supplies one through the setter (then Tm is moved as well)
+        base = get_chem(('db', ID, get_chem_default_ref(ID)))
+        if base.Hfus == 0.0:
+            for ref in 'slg':
+                grid.append(('set', ID, ref, '-', '-', f'Hfus={round(1000.0 + 37.5 * len(grid), 1)}'))
+                grid.append(('set', ID, ref, repr(round(base.Tm * 1.1, 2)), '-', f'Hfus={round(2500.0 + 11.0 * len(grid), 1)}'))
     for j, g in enumerate(grid):
         if j % nworkers != index: continue
         if g[0] == 'fn':
             yield gen_fn_case(rng, g[1])
-        elif g[0] == 'lock':
+        elif g[0] in ('lock', 'set'):
             c = get_chem(g)
             yield Case(['chem ' + ' '.join(g), 'wiring'] + oracle_ops(rng, c), {})
         else:
@@ -1591,6 +1603,10 @@ def corpus():
               'o:deriv l 320.0 101325.0', 'o:jumpTb']),
         Case(['chem copy Ethanol l copy-noreset B l 1', 'o:ref', 'o:deriv l 320.0 101325.0']),
         Case(['chem copy Water g copy-reset A g 0', 'wiring', 'o:ref', 'o:deriv g 400.0 101325.0', 'o:jumpTb']),
+        # a chemical without a database heat of fusion (Hfus = 0.0) given one through the setter (seeded change C07-16)
+        Case(['chem set HMF s - - Hfus=15000.0', 'wiring', 'S l 320.0 101325.0', 'o:jumpTm', 'o:ref']),
+        Case(['chem set Vanillin g 360.0 - Hfus=21000.0', 'wiring', 'o:jumpTm']),
+        Case(['chem db TributylPhosphate l', 'wiring', 'o:jumpTm', 'o:ref']),
         # the S0 setter on a phase-locked chemical (single functors instead of phase handles; seeded change C07-13)
         Case(['chem lock N2 g ctor S0=150.25', 'wiring', 'S g 298.15 101325.0', 'o:ref', 'o:press 300.0 101325.0 50000.0']),
         Case(['chem lock Water l inplace S0=55.5', 'wiring', 'o:ref']),
